@@ -621,5 +621,12 @@ Fixpoint lookup (name : string) (t : list (string * (list arg -> out))) : option
   | (n, f) :: t' => if String.eqb n name then Some f else lookup name t'
   end.
 
+(* the constructor macros (array_zeros!, array_eye!, ... ; case names m_<function>) expand to the functions *)
 Definition dispatch (name : string) (args : list arg) : out :=
-  match lookup name table with Some f => f args | None => OBad end.
+  match lookup name table with
+  | Some f => f args
+  | None =>
+    if String.prefix "m_" name then
+      match lookup (String.substring 2 (String.length name - 2) name) table with Some f => f args | None => OBad end
+    else OBad
+  end.
